@@ -14,4 +14,10 @@ namespace Tdgl.C10
 theorem C10_bridge_refresh_lines :
     pin_refresh = "if not xp.array_equal(current_A_applied, self.current_A_applied): operators.set_link_exponents(current_A_applied) || refresh before commit || stored in: __init__: self.current_A_applied = current_A_applied ; update: self.current_A_applied = current_A_applied" := rfl
 
+/-- with screening on, the rebuild from `A_applied + A_induced` comes first in every iteration of the screening loop, then the
+    ψ step, then the update of the induced potential (the order `linksUsed` of `C10Screen.lean` models), and the link
+    variables are rebuilt from an induced potential nowhere else -/
+theorem C10_bridge_screen_refresh_order :
+    pin_screen_refresh = "rebuild(applied + induced) -> psi step -> induced update || elsewhere: none" := rfl
+
 end Tdgl.C10
